@@ -193,6 +193,7 @@ type X2Result struct {
 	Samples     []string
 	Audits      int
 	AuditFail   []string
+	BonusNote   string
 }
 
 func histString(h []XEvent) string {
@@ -204,6 +205,12 @@ func histString(h []XEvent) string {
 }
 
 func (c *X2Config) Run(deadline Budget, auditSlice int) *X2Result {
+	return c.RunBonus(deadline, Budget{}, auditSlice)
+}
+
+// RunBonus: once every level up to c.Depth is expanded, further levels are expanded while the unit's CPU time is
+// within bonus (zero value: off). A bonus level that is cut short is no cap on the prescribed search.
+func (c *X2Config) RunBonus(deadline Budget, bonus Budget, auditSlice int) *X2Result {
 	res := &X2Result{Outcomes: map[string]bool{}, Complete: true}
 	type node struct{ hist []XEvent }
 	seen := map[string][]XEvent{}
@@ -227,9 +234,21 @@ func (c *X2Config) Run(deadline Budget, auditSlice int) *X2Result {
 			res.Viol = append(res.Viol, fv)
 		}
 	}
-	for depth := 0; depth < c.Depth && len(frontier) > 0; depth++ {
+	for depth := 0; len(frontier) > 0; depth++ {
+		inBonus := depth >= c.Depth
+		if inBonus {
+			if bonus.cpu == 0 || bonus.Exceeded() || depth >= c.Depth+3 || len(res.Viol) > 0 {
+				break
+			}
+		}
 		var next []node
+		execs0 := res.Execs
 		for ni, n := range frontier {
+			if inBonus && (bonus.Exceeded() || deadline.Exceeded() || (c.MaxStates > 0 && len(seen) > c.MaxStates)) {
+				res.States = len(seen)
+				res.BonusNote = fmt.Sprintf("bonus depth %d started after the prescribed depth %d, stopped by its CPU allowance after %d of %d frontier states (%d executions; not counted as completed)", depth+1, c.Depth, ni, len(frontier), res.Execs-execs0)
+				return res
+			}
 			if deadline.Exceeded() || (c.MaxStates > 0 && len(seen) > c.MaxStates) {
 				res.Complete = false
 				res.DepthDone = depth
@@ -266,6 +285,9 @@ func (c *X2Config) Run(deadline Budget, auditSlice int) *X2Result {
 				vs := c.check(w2, pre, post, ev, preLen, listed)
 				if w2.S.Panic != nil {
 					vs = append(vs, panicViolation(w2.S.Panic, w2.S.PanicStack))
+				}
+				if w2.S.LockHazard != "" {
+					vs = append(vs, Violation{Property: "*", Rule: "deadlock", Msg: w2.S.LockHazard, Norm: "recursive-read-lock"})
 				}
 				key := w2.StateKey(c.Symmetry)
 				if c.NoDedup {
@@ -321,6 +343,9 @@ func (c *X2Config) Run(deadline Budget, auditSlice int) *X2Result {
 		}
 		frontier = next
 		res.DepthDone = depth + 1
+		if inBonus {
+			res.BonusNote = fmt.Sprintf("bonus depth %d completed beyond the prescribed depth %d", depth+1, c.Depth)
+		}
 	}
 	res.States = len(seen)
 	return res
@@ -503,7 +528,15 @@ func runX2Unit(u Unit, c *X2Config) UnitResult {
 	if u.Tier == "thorough" {
 		audit = 1
 	}
-	r := c.Run(newBudget(unitDeadline(u.Tier)), audit)
+	var bonus Budget
+	if a := bonusAllowance(u.Tier); a > 0 {
+		bonus = newBudget(a)
+	}
+	r := c.RunBonus(newBudget(unitDeadline(u.Tier)), bonus, audit)
+	res.Prescribed = c.Depth
+	if r.BonusNote != "" {
+		res.Notes = append(res.Notes, r.BonusNote)
+	}
 	res.States = r.States
 	res.Transitions = r.Transitions
 	res.Execs = r.Execs
